@@ -989,4 +989,39 @@ theorem Sim.init {m : Map} (hs : Sorted m) (hne : ∀ e ∈ m, e.1 ≠ []) (star
   all := by cases rev <;> simp [BIter.allR, BIter.mk', Iter.all, Iter.mk']
   state := Or.inl ⟨rfl, rfl, rfl⟩
 
+/-! ### well-formedness is preserved by every call (no side condition) -/
+
+theorem Iter.next_wf {it : Iter} (h : it.WF) : it.next.1.WF := by
+  cases hp : it.pos with
+  | on i =>
+    obtain ⟨hr, _⟩ : it.rest = it.ents[i]'(Iter.pos_lt h hp) :: _ ∧ True :=
+      ⟨Iter.rest_eq_cons hp (Iter.pos_lt h hp), trivial⟩
+    exact (Iter.next_rest h hr).1
+  | soi =>
+    by_cases hrev : it.reverse = true
+    · have : it.next.1 = it := by simp [Iter.next, hrev, Iter.uPrev, hp]
+      rw [this]; exact h
+    · have hrev' : it.reverse = false := by simpa using hrev
+      have : it.next.1 = it.rewind.1 := by simp [Iter.next, Iter.rewind, hrev', Iter.uNext, hp]
+      rw [this]; exact (Iter.rewind_rest h).1
+  | eoi =>
+    by_cases hrev : it.reverse = true
+    · have : it.next.1 = it.rewind.1 := by simp [Iter.next, Iter.rewind, hrev, Iter.uPrev, hp]
+      rw [this]; exact (Iter.rewind_rest h).1
+    · have hrev' : it.reverse = false := by simpa using hrev
+      have : it.next.1 = it := by simp [Iter.next, hrev', Iter.uNext, hp]
+      rw [this]; exact h
+
+theorem Iter.step_wf {it : Iter} (h : it.WF) (st : IStep) : (it.step st).1.WF := by
+  cases st with
+  | rewind => exact (Iter.rewind_rest h).1
+  | seek k => exact (Iter.seek_rest h k).1
+  | next => exact Iter.next_wf h
+
+theorem Iter.steps_wf {it : Iter} (h : it.WF) (steps : List IStep) :
+    (steps.foldl (fun (i : Iter) st => (i.step st).1) it).WF := by
+  induction steps generalizing it with
+  | nil => exact h
+  | cons st rest ih => exact ih (Iter.step_wf h st)
+
 end C06
